@@ -1,10 +1,10 @@
 (* End to end, with markup: a one-line document whose line (a) matches none of the block-level patterns before the paragraph,
    (b) holds no line terminator or reserved code point, (c) starts with a non-space, and (d) whose inline rendering under the
    paragraph's expansion is R, renders through reader, block dispatch and the paragraph block to <p>R</p> with the session
-   unchanged.  PlainDoc.v is the instance R = escape line; here: a line with an emphasis and a line with an HTML tag. *)
+   unchanged.  PlainDoc.v is the instance R = escape line; EmDoc.v and TagDoc.v hold a line with an emphasis and a line with an HTML tag. *)
 From Rimu Require Import Base Unicode Regex RegexAnalysis RegexParse Str Types Tables Guards State Inline Block
   Frame FrameBlock FrameInst OptionsLemmas MiscLemmas MoreLemmas Plain TableFacts Lines PlainDoc
-  RegexSem MatchLemmas MatchExact FilterLemmas MacroSubst Emphasis HtmlTag.
+  RegexSem MatchLemmas MatchExact ScanLemmas.
 From Coq Require Import Lia.
 Local Open Scope monad_scope.
 
@@ -156,61 +156,14 @@ Proof.
 Qed.
 End Alphabet.
 
-(* ---- instance: a line with an emphasis ---- *)
-Definition em_line_alphabet : list char := safe_alphabet ++ [star].
-
-Lemma em_line_facts :
-  forallb (fun r => never_matches em_line_alphabet safe_first (re_ast r)) block_regexes = true /\
-  forallb (fun c => negb (is_nl c) && negb (reserved c) && no_macro_start c) em_line_alphabet = true.
-Proof. split; vm_compute; reflexivity. Qed.
 
 Lemma safe_over_plain t : over safe_alphabet t -> over plain_alphabet t.
 Proof. intros H x Hx. apply H in Hx. eapply (in_forallb_eqb x safe_alphabet (fun _ => true)); eauto using safe_sub_plain. Qed.
 
-Theorem emphasis_document n s c pre body post :
-  quiet_default s -> In c safe_first -> over safe_alphabet (c :: pre) -> over safe_alphabet body -> body_ok body -> over safe_alphabet post ->
-  doc_render (S (S (S (S (S (S n)))))) ((c :: pre) ++ star :: body ++ star :: post) s =
-  Ok ($"<p>" ++ (escape (c :: pre) ++ $"<em>" ++ escape body ++ $"</em>" ++ escape post) ++ $"</p>", s).
-Proof.
-  intros Hq Hc Hpre Hbody Hbok Hpost. apply para_line_document; [|exact Hq].
-  destruct em_line_facts as [F1 F2].
-  apply (a_line_para em_line_alphabet safe_first F1 safe_first_not_space F2).
-  - cbn [app]. split; [exact Hc|]. unfold em_line_alphabet. intros x Hx. apply in_or_app.
-    change (c :: pre ++ star :: body ++ star :: post) with ((c :: pre) ++ star :: body ++ star :: post) in Hx.
-    apply in_app_or in Hx as [Hx|[<-|Hx]]; [left; auto|right; left; reflexivity|].
-    apply in_app_or in Hx as [Hx|[<-|Hx]]; [left; auto|right; left; reflexivity|left; auto].
-  - intros m. apply spans_render_em; auto using safe_over_plain. apply quiet_defaults. exact Hq.
-Qed.
 
-(* ---- instance: a line with an inline HTML tag ---- *)
-Definition word_first : list char := $"abcdefghijklmnopqrstuvwxyzABCDEFGHIJKLMNOPQRSTUVWXYZ0123456789".
-Definition word2_alphabet : list char := $"abcdefghijklmnopqrstuvwxyzABCDEFGHIJKLMNOPQRSTUVWXYZ0123456789 ,".
-Definition tag_line_alphabet : list char := word2_alphabet ++ [60; 62].
+(* through rimu.render, whatever the option values of the call do to the session first *)
+Corollary api_of_doc n src o s s1 r : 
+  updateFrom o (if (s_mode s =? -1)%Z then document_init s else s) = Ok (tt, s1) ->
+  doc_render n src s1 = r -> api_render n src o s = r.
+Proof. intros Hu Hd. rewrite api_render_unfold. cbv zeta. rewrite Hu. exact Hd. Qed.
 
-Lemma tag_line_facts :
-  forallb (fun r => never_matches tag_line_alphabet word_first (re_ast r)) block_regexes = true /\
-  forallb (fun c => negb (is_space c)) word_first = true /\
-  forallb (fun c => negb (is_nl c) && negb (reserved c) && no_macro_start c) tag_line_alphabet = true /\
-  forallb (fun c => existsb (N.eqb c) word_alphabet) word2_alphabet = true.
-Proof. repeat split; vm_compute; reflexivity. Qed.
-
-Lemma word2_word t : over word2_alphabet t -> over word_alphabet t.
-Proof.
-  intros H x Hx. apply H in Hx. destruct tag_line_facts as (_ & _ & _ & W). rewrite forallb_forall in W. apply W in Hx.
-  apply existsb_exists in Hx as (y & Hy & E). apply N.eqb_eq in E. subst y. exact Hy.
-Qed.
-
-Theorem tag_document n s c pre name post :
-  quiet_default s -> In c word_first -> over word2_alphabet (c :: pre) -> name_ok2 name -> over word2_alphabet name -> over word2_alphabet post ->
-  doc_render (S (S (S (S (S (S n)))))) ((c :: pre) ++ 60 :: name ++ 62 :: post) s =
-  Ok ($"<p>" ++ ((c :: pre) ++ htmlSafeModeFilter (ienv_of s) (60 :: name ++ [62]) ++ post) ++ $"</p>", s).
-Proof.
-  intros Hq Hc Hpre Hname Hnw Hpost. apply para_line_document; [|exact Hq].
-  destruct tag_line_facts as (F1 & F0 & F2 & _).
-  apply (a_line_para tag_line_alphabet word_first F1 F0 F2).
-  - cbn [app]. split; [exact Hc|]. unfold tag_line_alphabet. intros x Hx. apply in_or_app.
-    change (c :: pre ++ 60 :: name ++ 62 :: post) with ((c :: pre) ++ 60 :: name ++ 62 :: post) in Hx.
-    apply in_app_or in Hx as [Hx|[<-|Hx]]; [left; auto|right; left; reflexivity|].
-    apply in_app_or in Hx as [Hx|[<-|Hx]]; [left; auto|right; right; left; reflexivity|left; auto].
-  - intros m. apply spans_render_tag; auto using word2_word. apply quiet_defaults. exact Hq.
-Qed.
